@@ -6,6 +6,7 @@ returns is a pure function of (scenario, library sources).
 from __future__ import annotations
 
 import asyncio
+import copy
 import gc
 from typing import Any, Callable
 
@@ -134,7 +135,8 @@ def _post_op_probe(ctx: "Ctx", aid: str, i: int, hops: int = 3) -> None:
             # connect phases (handshake / hello-login wait) and disconnect (DisconnectResponse wait) own one such timer too
             if a.current is not None and a.spec.get("steps", [])[a.current]["do"] in (PROBED_OPS | {"connect", "finish", "conn.finish", "disconnect", "conn.disconnect"}):
                 running += 1
-        w.rec("post_op_timers", actor=aid, i=i, armed=armed, running=running)
+        waiters = sum(len(c._read_exception_futures) for c in getattr(w, "conns", []))
+        w.rec("post_op_timers", actor=aid, i=i, armed=armed, running=running, waiters=waiters)
 
     if w.loop is not None and not w.loop.is_closed():
         hop(hops)
@@ -356,7 +358,9 @@ def _deliver_mdns(ctx: Ctx, ev: dict) -> None:
             import socket as _s
 
             rec = zc_real.DNSAddress(r["name"], zc_real.const._TYPE_A, zc_real.const._CLASS_IN, 120, _s.inet_aton(r.get("addr", "10.0.0.5")))
-        recs.append(zc_real.RecordUpdate(rec, None))
+        # python-zeroconf fills `old` with the copy it still holds in its cache (a device that re-announces identical records
+        # after a reboot): same content, another object
+        recs.append(zc_real.RecordUpdate(rec, copy.copy(rec) if r.get("cached") else None))
     def deliver() -> None:
         n = 0
         for z in list(getattr(w, "zcs", [])):
@@ -657,12 +661,12 @@ async def _s_wait(ctx: Ctx, a: Actor, st: dict) -> Any:
 
 @step("connect")
 async def _s_connect(ctx: Ctx, a: Actor, st: dict) -> Any:
-    await _cli(ctx, st).connect(on_stop=_user_on_stop(ctx, a.aid), login=st.get("login", False))
+    await _cli(ctx, st).connect(on_stop=None if st.get("no_on_stop") else _user_on_stop(ctx, st.get("stop_tag", a.aid)), login=st.get("login", False))
 
 
 @step("start")
 async def _s_start(ctx: Ctx, a: Actor, st: dict) -> Any:
-    await _cli(ctx, st).start_connection(on_stop=_user_on_stop(ctx, a.aid))
+    await _cli(ctx, st).start_connection(on_stop=None if st.get("no_on_stop") else _user_on_stop(ctx, st.get("stop_tag", a.aid)))
 
 
 @step("cmd")
